@@ -216,6 +216,18 @@ class Chunks(Harness):
                             and seq not in (('s', 'g2'), ('g2', 'g1')):
                         continue
                     out.append(dict(L=L, shape=shape, seq=list(seq)))
+        # re-configuration of a generator that was already used: the shape is
+        # set to another one (fewer / more / same number of dimensions) and
+        # the next request has the size of the previous one or another size
+        for L, shape, to in ((1, (2, 1), None), (1, (2, 1), (2, )),
+                             (1, (2, ), None), (1, None, (2, )),
+                             (2, (2, 1), None), (1, (2, ), (1, 2))):
+            hists = [['S', 'g1'], ['g2', 'S', 'g2'], ['g2', 'S', 'g1']]
+            if tier != 'quick':
+                hists += [['g1', 'S', 'g1', 'g2'], ['s', 'S', 'g1'],
+                          ['g3', 'S', 'g3']]
+            for seq in hists:
+                out.append(dict(L=L, shape=shape, seq=seq, to=to))
         return out
 
     def sym(self, ctx, cfg):
@@ -239,6 +251,11 @@ class Chunks(Harness):
                 s = ctx.integer('s%d' % j, 0, 10**10)
                 g.skip_samples_for_next_generation(s)
                 kz = kz + s.z
+            elif op == 'S':
+                to = cfg['to']
+                g.shape = tuple(to) if to is not None else None
+                phi, psi = g._phi_l, g._psi_l       # redrawn for the new shape
+                pos_shape = tuple(to) if to is not None else ()
             else:
                 n = int(op[1])
                 g.generate_more_samples(n)
@@ -320,6 +337,20 @@ class Chunks(Harness):
         L, shape = cfg['L'], cfg['shape']
         shape_t = tuple(shape) if shape is not None else None
         Fd, Ts = m.get('Fd', 10.0), m.get('Ts', 1e-3)
+        # the model's values first, then the same history at other operating
+        # points of the stated ranges (long skips, very small Fd*Ts)
+        for (fd, ts, skip) in ((Fd, Ts, None), (Fd, Ts, 10**9),
+                               (5.0, 1e-9, 2 * 10**8), (0.5, 1e-8, 10**9),
+                               (100.0, 1e-3, 7)):
+            r = self._replay_at(cfg, m, fd, ts, skip)
+            if r['reproduced']:
+                return r
+        return r
+
+    def _replay_at(self, cfg, m, Fd, Ts, skip):
+        jk = repo_module(FG)
+        L, shape = cfg['L'], cfg['shape']
+        shape_t = tuple(shape) if shape is not None else None
         g = jk.JakesSampleGenerator(Fd, Ts, L, shape_t,
                                     RS=np.random.RandomState(3))
         phi, psi = g._phi_l, g._psi_l
@@ -327,9 +358,14 @@ class Chunks(Harness):
         bad = []
         for j, op in enumerate(cfg['seq']):
             if op == 's':
-                s = int(m.get('s%d' % j, 5))
+                s = int(m.get('s%d' % j, 5)) if skip is None else skip
                 g.skip_samples_for_next_generation(s)
                 k += s
+            elif op == 'S':
+                to = cfg['to']
+                shape_t = tuple(to) if to is not None else None
+                g.shape = shape_t
+                phi, psi = g._phi_l, g._psi_l
             else:
                 n = int(op[1])
                 try:
@@ -351,7 +387,8 @@ class Chunks(Harness):
                     break
                 k += n
         return dict(reproduced=bool(bad),
-                    key='C14/jakes/chunks:' + (bad[0][0] if bad else ''),
+                    key='C14/jakes/chunks:' + (bad[0][0] if bad else '') + (
+                        ':after-shape-change' if 'S' in cfg['seq'] else ''),
                     detail=dict(cfg=cfg, Fd=Fd, Ts=Ts, bad=bad))
 
     def _big_probe(self):
@@ -398,31 +435,23 @@ class Chunks(Harness):
         """differential: chunked vs one-shot through the public API"""
         if cfg['L'] == 1 and cfg['shape'] is None and cfg['seq'] == ['g1']:
             return self._big_probe()
-        jk = repo_module(FG)
-        L, shape = cfg['L'], cfg['shape']
-        shape_t = tuple(shape) if shape is not None else None
-        Fd, Ts = rng.uniform(1, 100), 10**rng.uniform(-6, -2)
-        g1 = jk.JakesSampleGenerator(Fd, Ts, L, shape_t,
-                                     RS=np.random.RandomState(5))
-        g2 = jk.JakesSampleGenerator(Fd, Ts, L, shape_t,
-                                     RS=np.random.RandomState(5))
-        tot = 0
-        chunks = []
-        for j, op in enumerate(cfg['seq']):
-            if op == 's':
-                g1.skip_samples_for_next_generation(4)
-                g2.skip_samples_for_next_generation(4)
-            else:
-                n = int(op[1])
-                g1.generate_more_samples(n)
-                chunks.append(g1.get_samples())
-                for _ in range(n):
-                    g2.generate_more_samples(1)
-                    chunks.append(None)
-                    assert True
-        return 1
+        from pysym.runner import ConcreteViolation
+        n = 0
+        for (Fd, Ts, skip) in ((rng.uniform(1, 100), 10**rng.uniform(-6, -2),
+                                rng.randrange(0, 50)),
+                               (rng.uniform(1, 300), 10**rng.uniform(-9, -7),
+                                rng.randrange(10**6, 10**9)),
+                               (rng.uniform(0.1, 10), 10**rng.uniform(-9, -8),
+                                rng.randrange(10**8, 10**9))):
+            r = self._replay_at(cfg, {}, Fd, Ts, skip)
+            if r['reproduced']:
+                raise ConcreteViolation(r['key'] + ':concrete-probe',
+                                        r['detail'])
+            n += 1
+        return n
 
 
+# ---------------------------------------------------------------------------
 class Invariants(Harness):
     """Fd = 0 gives a time-invariant channel; |h|^2 <= L."""
     name = 'invariants'
